@@ -87,7 +87,8 @@ class SymArray(np.ndarray):
                 lo, hi = ins[1], ins[2]
                 return self._store(_smin(_smax(ins[0], lo), hi), out)
             if ufunc in (np.floor_divide, np.remainder):
-                raise Unsupported(f"{ufunc.__name__} on symbolic values")
+                f = (lambda a, b: to_S(a) % b) if ufunc is np.remainder else (lambda a, b: to_S(a) // b)
+                return self._store(_elem(f, 2)(*ins), out)
             if ufunc is np.power:
                 r = _elem(lambda a, p: to_S(a) ** (p if not isinstance(p, S) else p), 2)(*ins)
                 return self._store(r, out)
@@ -194,7 +195,7 @@ def twiddles(n, sign):
             else:
                 th = 2 * math.pi * m / n
                 core.ctx().inexact = True
-                W[k, j] = S(Fraction(math.cos(th)), Fraction(sign * math.sin(th)))
+                W[k, j] = S(Fraction(math.cos(th)).limit_denominator(10**12), Fraction(sign * math.sin(th)).limit_denominator(10**12))
     return W
 
 
@@ -446,6 +447,33 @@ class NP:
         if is_sym(a):
             return lift(a).mean(axis=axis)
         return np.mean(a, axis=axis, **k)
+
+    def argmax(self, a, axis=None, **k):
+        if not is_sym(a):
+            return np.argmax(a, axis=axis, **k)
+        if axis is not None:
+            raise Unsupported("argmax over an axis of a symbolic array")
+        flat = list(np.asarray(a).reshape(-1))
+        i = core.unique_argmax(flat)
+        if i is None:                      # not unique over the inputs: fork comparison by comparison
+            i = 0
+            for j in range(1, len(flat)):
+                if bool(to_S(flat[j]) > to_S(flat[i])):
+                    i = j
+        return np.intp(i)
+
+    def isclose(self, a, b, rtol=1e-5, atol=1e-8, **k):
+        if not (is_sym(a) or is_sym(b)):
+            return np.isclose(a, b, rtol=rtol, atol=atol, **k)
+        f = lambda x, y: abs(to_S(x) - to_S(y)) <= (abs(to_S(y)) * rtol + atol)  # noqa: E731
+        r = _elem(f, 2)(a, b)
+        return r
+
+    def fmax(self, a, b, out=None, **k):
+        return self.maximum(a, b, out=out, **k)      # NaN handling differs only on NaN, which symbolic reals never are
+
+    def fmin(self, a, b, out=None, **k):
+        return self.minimum(a, b, out=out, **k)
 
     def allclose(self, a, b, **k):
         if is_sym(a) or is_sym(b):
